@@ -207,6 +207,11 @@ class Flattener(object):
         if isinstance(f, ast.Name):
             if f.id in self.local_defs:
                 return self.local_defs[f.id], None
+            # a local name bound once to one of the closures (`book = book_demand`) is that closure
+            if getattr(self, '_node', None) is not None:
+                d = self._single_def(f.id)
+                if d is not None and isinstance(d.value, ast.Name) and d.value.id in self.local_defs:
+                    return self.local_defs[d.value.id], None
             callee = prog.functions.get((self.fi.module.rel, f.id))
             if callee is not None:
                 return callee, None
@@ -248,8 +253,16 @@ class Flattener(object):
         if not yields or len(yields) != len(stmt_yields):
             return False
         for n in own:
-            if isinstance(n, (ast.Try, ast.With)) and any(isinstance(x, ast.Yield) for x in ast.walk(n)):
+            if isinstance(n, ast.With) and any(isinstance(x, ast.Yield) for x in ast.walk(n)):
                 return False
+            if isinstance(n, ast.Try):
+                # a yield in the `else:` part runs the consumer outside the protection of the handlers - as the loop body
+                # of the caller does; anywhere else in a try the consumer would run under its handlers / before its finally
+                prot = list(n.body) + [b for h in n.handlers for b in h.body] + list(n.finalbody)
+                if any(isinstance(x, ast.Yield) for b in prot for x in ast.walk(b)):
+                    return False
+                if n.finalbody and any(isinstance(x, ast.Yield) for b in n.orelse for x in ast.walk(b)):
+                    return False
         return True
 
     def eligible(self, callee, call):
@@ -263,9 +276,13 @@ class Flattener(object):
         if any(isinstance(x, ast.Starred) for x in call.args) or any(k.arg is None for k in call.keywords):
             return False
         for n in _own_nodes(callee.node):
-            if isinstance(n, (ast.Yield, ast.YieldFrom, ast.Await, ast.Global, ast.Nonlocal,
-                              ast.FunctionDef, ast.AsyncFunctionDef, ast.ClassDef)):
+            if isinstance(n, (ast.Yield, ast.YieldFrom, ast.Await, ast.Global, ast.Nonlocal, ast.AsyncFunctionDef, ast.ClassDef)):
                 return False
+            if isinstance(n, ast.FunctionDef):
+                # closures defined directly in the helper's body come along (under their own names, which must be new here)
+                if n not in callee.node.body or n.decorator_list or n.name in self.caller_names or \
+                        any(isinstance(x, (ast.Nonlocal, ast.Global, ast.Yield, ast.YieldFrom)) for x in ast.walk(n)):
+                    return False
         return True
 
     # ---- binding ---------------------------------------------------------------------------------
@@ -636,6 +653,13 @@ class Flattener(object):
                 self.skipped.append(callee.key)
                 continue
             self.inlined.append(callee.key)
+            for st_ in new_body:
+                if isinstance(st_, ast.FunctionDef) and st_.name not in self.local_defs:
+                    sub = FuncInfo(callee.module, st_, callee.cls)
+                    sub.qualname = callee.qualname + '.<locals>.' + st_.name
+                    sub.local_closure = True
+                    self.local_defs[st_.name] = sub
+                    self.caller_names.add(st_.name)
             inner = self.rewrite_block(pre + new_body, callee.cls if callee.cls is not None else cls, stack + [callee.key])
             if tail:
                 return inner + self.inline_stmt(tail[0], cls, stack)
@@ -1203,6 +1227,32 @@ class Flattener(object):
             ga = GA()
             s = ga.visit(s)
             self.desugared += ga.n
+        # for x in (e for t in S if c): B    ==>    for t in S: if c: x = e; B       (t renamed when the name is taken)
+        if isinstance(s, ast.For) and isinstance(s.iter, (ast.GeneratorExp, ast.ListComp)) and len(s.iter.generators) == 1 and not s.orelse \
+                and (isinstance(s.iter, ast.GeneratorExp) or True):
+            g = s.iter.generators[0]
+            elt = s.iter.elt
+            tnames = {n.id for n in ast.walk(g.target) if isinstance(n, ast.Name)}
+            taken = (_all_names(self._node) - {n.id for n in ast.walk(s.iter) if isinstance(n, ast.Name)}) | \
+                {n.id for b in s.body for n in ast.walk(b) if isinstance(n, ast.Name)}
+            ren = {}
+            for nm in sorted(tnames):
+                if nm in taken:
+                    ren[nm] = self.fresh(nm, next(self.counter))
+            target, conds = g.target, list(g.ifs)
+            if ren:
+                sub = _Subst({}, ren)
+                target = sub.visit(clone(target))
+                conds = [sub.visit(clone(c)) for c in conds]
+                elt = sub.visit(clone(elt))
+            bind = ast.copy_location(ast.Assign(targets=[s.target], value=elt), s)
+            body = [bind] + list(s.body)
+            for cond in reversed(conds):
+                body = [ast.copy_location(ast.If(test=cond, body=body, orelse=[]), s)]
+            self.desugared += 1
+            new_loop = ast.copy_location(ast.For(target=target, iter=g.iter, body=body, orelse=[], type_comment=None), s)
+            ast.fix_missing_locations(new_loop)
+            return self.desugar([new_loop])
         # a loop over a short literal tuple of constants is its unrolling
         if isinstance(s, ast.For) and isinstance(s.iter, (ast.Tuple, ast.List)) and 0 < len(s.iter.elts) <= 8 and not s.orelse and \
                 all(isinstance(e, ast.Constant) for e in s.iter.elts) and isinstance(s.target, ast.Name) and \
@@ -1334,11 +1384,18 @@ class Flattener(object):
             if not used and any(k.endswith('.<locals>.' + name) for k in self.inlined):
                 node.body = [st for st in node.body if not (isinstance(st, ast.FunctionDef) and st.name == name)] or [ast.Pass()]
         # a flag parameter bound to a literal leaves `if not False:` behind: keep the branch taken
-        if self.inlined:
-            node.body = _fold_constant_tests(node.body) or [ast.Pass()]
-        # inlining exposes new sugar (a helper that was `return any(...)`): one more desugaring round
+        # inlining exposes new sugar (a helper that was `return any(...)`), folding leaves a single binding where there were
+        # two (`book = a if flag else b`), which makes another call resolvable: repeat until nothing changes (bounded)
         before = self.desugared
-        node.body = self.desugar(node.body)
+        for _round in range(4):
+            shape = ast.dump(node)
+            if self.inlined:
+                node.body = _fold_constant_tests(node.body) or [ast.Pass()]
+            node.body = self._desugar_iterator_pulls(node.body, node)
+            node.body = self.desugar(node.body)
+            node.body = self.rewrite_block(node.body, self.fi.cls, [self.fi.key])
+            if ast.dump(node) == shape:
+                break
         if self.desugared != before and (self.fi.key + '::<desugared>') not in self.inlined:
             self.inlined.append(self.fi.key + '::<desugared>')
         ast.fix_missing_locations(node)
@@ -1352,6 +1409,15 @@ class Flattener(object):
 def _const_truth(t):
     if isinstance(t, ast.Constant) and (isinstance(t.value, bool) or t.value is None):
         return bool(t.value)
+    if isinstance(t, ast.Compare) and len(t.ops) == 1 and isinstance(t.left, ast.Constant) and isinstance(t.left.value, (str, int)) \
+            and not isinstance(t.left.value, bool):
+        r, op = t.comparators[0], t.ops[0]
+        if isinstance(r, ast.Constant) and type(r.value) is type(t.left.value) and isinstance(op, (ast.Eq, ast.NotEq)):
+            return (t.left.value == r.value) == isinstance(op, ast.Eq)
+        if isinstance(r, (ast.Tuple, ast.List)) and isinstance(op, (ast.In, ast.NotIn)) and \
+                all(isinstance(e, ast.Constant) and type(e.value) is type(t.left.value) for e in r.elts):
+            return (t.left.value in [e.value for e in r.elts]) == isinstance(op, ast.In)
+        return None
     if isinstance(t, ast.UnaryOp) and isinstance(t.op, ast.Not):
         r = _const_truth(t.operand)
         return None if r is None else (not r)
